@@ -291,6 +291,8 @@ class BaseAccumulator:
         self.selector = selector
         self.parent = parent
         self.template = template
+        # The accumulator created by the user that this one descends from
+        self.origin = self
         self._intercept = self.__check(intercept, check)
         if intercept is None:
             self.intercept = None
@@ -326,7 +328,7 @@ class BaseAccumulator:
         accumulated by their parents.
         """
         parent = None if self.template else self
-        return type(self)(
+        forked = type(self)(
             selector=selector or self.selector,
             intercept=self._intercept,
             trigger=self._trigger,
@@ -336,6 +338,8 @@ class BaseAccumulator:
             template=False,
             check=False,  # False, because functions are already wrapped
         )
+        forked.origin = self.origin
+        return forked
 
     def accumulator_for(self, element):
         return self
